@@ -1,5 +1,6 @@
 (* C05: `lax model || strict model | strict wire spec |L lax reference decoder |P strict
-   reference decoder with the partial packet at the point of rejection` per case.
+   reference decoder with the partial packet at the point of rejection |N the finer instrumented
+   strict reference decoder (network layer decoded so far / resumed decoding)` per case.
    Whole-packet entries eth / et:<n> / ip; single-layer entries lip, lip4, lip6,
    lmacsec, ludp, lx6:<nh>, lx4:<nh> (spec part `-`). *)
 open M_c05
@@ -43,6 +44,18 @@ let pres_s = function
     "rej " ^ slice_err e ^ " @@ " ^ String.sub s 3 (String.length s - 3)
   | PBug s -> "BUG " ^ sn s
 
+(* ---- audit round 1: finer instrumented strict reference decoder (Parse/LaxWire2.v) ----
+   `acc net=<strict net>` | `rej <error> net=<strict net>` |
+   `rejnet (<error>)@<tag> net=<network layer as far as decoded, lax rendering>` |
+   `fb <error> inc=<0|1> -> <resumed decoding>` *)
+let rec pres2_s = function
+  | P2Acc p -> "acc net=" ^ vnet p.v_net
+  | P2Rej (p, e) -> "rej " ^ slice_err e ^ " net=" ^ vnet p.v_net
+  | P2RejNet (_, n, tag, e) -> "rejnet (" ^ slice_err e ^ ")@" ^ layer_tag tag ^ " net=" ^ lvnet1 n
+  | P2Fb (_, e, inc, r) -> "fb " ^ slice_err e ^ " inc=" ^ b01 inc ^ " -> " ^ pres2_s r
+  | P2Bug s -> "BUG " ^ sn s
+(* ---- end audit round 1 ---- *)
+
 (* generic result printing *)
 let pres f = function
   | Ok a -> "ok " ^ f a
@@ -65,15 +78,18 @@ let run (line : string) : string =
       lvres (lvres_of (LaxSlicedPacket.from_ethernet bs)) ^ " || "
       ^ vres (vres_of (SlicedPacket.from_ethernet bs)) ^ " | " ^ vres (wire_ethernet bs)
       ^ " |L " ^ lvres (lwire_ethernet bs) ^ " |P " ^ pres_s (pwire_ethernet bs)
+      ^ " |N " ^ pres2_s (pwire2_ethernet bs)
     else if entry = "ip" then
       lvres (lvres_of (LaxSlicedPacket.from_ip bs)) ^ " || "
       ^ vres (vres_of (SlicedPacket.from_ip bs)) ^ " | " ^ vres (wire_from_ip bs)
       ^ " |L " ^ lvres (lwire_from_ip bs) ^ " |P " ^ pres_s (pwire_from_ip bs)
+      ^ " |N " ^ pres2_s (pwire2_from_ip bs)
     else if starts entry "et:" then begin
       let et = arg entry 3 in
       lvres (lvres_of (LaxSlicedPacket.from_ether_type et bs)) ^ " || "
       ^ vres (vres_of (SlicedPacket.from_ether_type et bs)) ^ " | " ^ vres (wire_ether_type bs et)
       ^ " |L " ^ lvres (lwire_ether_type bs et) ^ " |P " ^ pres_s (pwire_ether_type bs et)
+      ^ " |N " ^ pres2_s (pwire2_ether_type bs et)
     end
     else if entry = "lip" then
       pres (fun (ip, st) ->
